@@ -42,6 +42,8 @@ type Case struct {
 	Ponder string   `json:"ponder,omitempty"`  // "queued": ponder search whose ponderhit is already waiting; "hit:<j>": ponderhit sent from inside the j-th info line
 	Params []string `json:"params,omitempty"`  // spsa build only: name=value settings
 	GoArgs string   `json:"go,omitempty"`      // UCI leg: arguments of the go command
+	// Before (UCI leg): conforming position / ucinewgame lines sent on the same driver first (gen.EarlierPositions)
+	Before []string `json:"before,omitempty"`
 }
 
 var ttSizes = []int{32, 64, 3200, 128 * 1024, 1 << 20}
@@ -414,6 +416,9 @@ func uciCase(c Case, rec *evid.Rec) error {
 		return err
 	}
 	ses := eng.NewSession()
+	for _, l := range c.Before {
+		ses.Send(l)
+	}
 	cmd := "position fen " + c.FEN
 	if len(c.Moves) > 0 {
 		cmd += " moves " + strings.Join(c.Moves, " ")
@@ -802,6 +807,9 @@ func TestC06(t *testing.T) {
 			rec.Rapid(t, "uci_go", evid.Pick(6000, 60000), func(t *rapid.T) {
 				c := drawRoot(t, rec)
 				c.GoArgs = drawGoArgs(t)
+				if c.Before = gen.EarlierPositions(t, c.FEN, false, c.Moves); len(c.Before) > 0 {
+					rec.Class("uci_earlier_position_commands")
+				}
 				if rec.WantSample("uci_go") {
 					rec.Sample("uci_go", c)
 				}
